@@ -72,7 +72,7 @@ struct Vector {
 
     /// Provides a slice to the internal data. The returned Slice is only valid as long as at
     /// least this Vector exists.
-    operator Slice<const T>() const { return Slice(begin(), size()); }
+    operator Slice<const T>() const { return Slice<const T>(begin(), size()); }
 
     /// Provides a slice to the internal data. The returned Slice is only valid as long as at
     /// least this Vector exists.
